@@ -376,8 +376,10 @@ def collectOne : Pat → Sexp → Env → Except Err Env
       | .list l imp =>
           collectItems (expectedCaptures children l.length imp) l.length imp children l env
       | e =>
+          -- `non_list_match`: a form that is not a list is an improper list without elements — the ellipsis
+          -- captures nothing (its variables are bound to `()`), the dotted tail is the form itself
           match children with
-          | [.many _, .rest p] => collectOne p e env
+          | [.many m, .rest p] => collectOne p e (emptyMany env m)
           | _ => .error .badSyntax
   | .rest p, e, env => collectOne p (.list [e] false) env
   | _, _, env => .ok env
@@ -1587,7 +1589,10 @@ def dataVal : Sexp → Val
   | .id n _ => .sym n.strip
   | .int n => .int n
   | .bool b => .bool b
-  | .kw _ => .sym (nm "#keyword")
+  | .kw k => .sym (nm (match k with
+      | .if_ => "if" | .let_ => "let" | .define => "define" | .begin_ => "begin" | .lambda => "lambda"
+      | .quote => "quote" | .set => "set!" | .defineSyntax => "define-syntax" | .syntaxRules => "syntax-rules"
+      | .ellipsis => "..."))
   | .list xs _ => .list (dataVals xs)
 def dataVals : List Sexp → List Val
   | [] => []
